@@ -1287,3 +1287,82 @@ func c14r12(rc *core.RC) {
 		rc.Unknown("encoder/marshaler-code-calls", token.NoPos, "found %d calls of marshalJSONCode/marshalTextCode (confirmed: 13)", n)
 	}
 }
+
+// ---- C14.R13 an opcode carries the type of the node that emits it ----
+
+// OpMarshalJSON, OpMarshalText, OpInterface and the recursive operations rebuild a Go value from the address they
+// hold and Opcode.Type. In the methods of the compiler's node types (…Code) the type written into an opcode is the
+// node's own (c.typ): the struct member opcode that is merged with its value opcode keeps the member's type, `*T` for
+// a member of type *T, because it is handed the address of the member. Taking the type from the value opcode
+// (field.Type = value.Type) makes it T with the address of a *T: T's marshaler runs on the pointer.
+func c14r13(rc *core.RC) {
+	p := rc.P
+	pk := p.Pkg("encoder")
+	if pk == nil {
+		rc.Unknown("encoder", token.NoPos, "package not found")
+		return
+	}
+	info := pk.TypesInfo
+	n := 0
+	for _, fd := range p.Funcs("encoder") {
+		if fd.Body == nil || fd.Recv == nil || len(fd.Recv.List) != 1 || len(fd.Recv.List[0].Names) != 1 {
+			continue
+		}
+		recv := info.Defs[fd.Recv.List[0].Names[0]]
+		if recv == nil {
+			continue
+		}
+		rt := recv.Type()
+		if pt, ok := rt.(*types.Pointer); ok {
+			rt = pt.Elem()
+		}
+		named, ok := rt.(*types.Named)
+		if !ok || !strings.HasSuffix(named.Obj().Name(), "Code") || named.Obj().Name() == "Opcode" {
+			continue
+		}
+		name := p.FuncName(fd)
+		k := 0
+		check := func(e ast.Expr, pos token.Pos) {
+			k++
+			n++
+			rc.Touch(name)
+			own := false
+			if sel, ok := core.Unparen(e).(*ast.SelectorExpr); ok && core.ObjOf(info, sel.X) == recv {
+				if f := core.FieldOf(info, sel); f != nil && strings.HasSuffix(f.Type().String(), "runtime.Type") {
+					own = true
+				}
+			}
+			rc.Check(own, fmt.Sprintf("%s/opcode-type#%d the-node's-own", name, k), pos, "Opcode.Type is given %s: in a method of a compiler node it has to be the node's own type (%s.typ); the type of another opcode (the value opcode merged into a member opcode) belongs to another address: the marshaler of T would be run on the address of a *T member", core.Src(p.Fset, e), recv.Name())
+		}
+		ast.Inspect(fd.Body, func(m ast.Node) bool {
+			switch x := m.(type) {
+			case *ast.AssignStmt:
+				if len(x.Lhs) != len(x.Rhs) {
+					return true
+				}
+				for i, l := range x.Lhs {
+					if f := core.FieldOf(info, l); f != nil && f.Name() == "Type" {
+						if sel, ok := core.Unparen(l).(*ast.SelectorExpr); ok && strings.HasSuffix(strings.TrimPrefix(info.TypeOf(sel.X).String(), "*"), "encoder.Opcode") {
+							check(x.Rhs[i], x.Pos())
+						}
+					}
+				}
+			case *ast.CompositeLit:
+				if t := info.TypeOf(x); t == nil || !strings.HasSuffix(t.String(), "encoder.Opcode") {
+					return true
+				}
+				for _, el := range x.Elts {
+					if kv, ok := el.(*ast.KeyValueExpr); ok {
+						if id, ok := kv.Key.(*ast.Ident); ok && id.Name == "Type" {
+							check(kv.Value, kv.Pos())
+						}
+					}
+				}
+			}
+			return true
+		})
+	}
+	if n < 4 {
+		rc.Unknown("encoder/opcode-types", token.NoPos, "found %d places where a compiler node writes Opcode.Type (confirmed: 5)", n)
+	}
+}
